@@ -546,3 +546,37 @@ Proof.
   - apply IH. eapply edit2_HWF; eauto.
 Qed.
 End RemoveOpt.
+
+(* ---- RepeatedNodeWrapper._del_tokens when the removed item is written right against the next one (`1 "s"2`,
+   fixes/repeated-remove-keeps-separator-when-glued.patch): the blanks in front of the item stay ---- *)
+Lemma firstn_slice : forall {A} (l : list A) a e, a <= e -> firstn e l = firstn a l ++ slice l a e.
+Proof.
+  intros A l a. revert l. unfold slice. induction a as [|a IH]; intros l e Hae.
+  - simpl. rewrite Nat.sub_0_r. reflexivity.
+  - destruct e as [|e]; [lia|]. destruct l as [|x l].
+    + simpl. rewrite firstn_nil. reflexivity.
+    + simpl. f_equal. apply IH. lia.
+Qed.
+
+(* item i is followed by an item, there are tokens between the previous unit (previous item / placeholder) and it
+   (a < xa), all blank, and it touches what follows (keep = true): the Repeated's tokens afterwards are everything up to
+   the previous unit's end (a), the blanks (a .. xa), and everything after the item (b ..): only xa .. b has left.
+   Without the touch (keep = false) the blanks leave with the item. *)
+Lemma remove_item_keeps_gap : forall rs rt ph items i x a xa b,
+  nth_error items i = Some x ->
+  after_unit rt (prev_unit ph items i) = Some a -> first_off rt (node_toks x) = Some xa ->
+  after_unit rt (node_toks x) = Some b ->
+  S i < length items -> a < xa -> forallb blank_tk (slice rt a xa) = true ->
+  rep_remove_A true rs rt ph items i
+    = Some (x, SRep rs (firstn a rt ++ slice rt a xa ++ skipn b rt) ph (firstn i items ++ skipn (S i) items))
+  /\ rep_remove_A false rs rt ph items i
+    = Some (x, SRep rs (firstn a rt ++ skipn b rt) ph (firstn i items ++ skipn (S i) items))
+  /\ (i <> 0 -> forall keep, rep_remove keep rs rt ph items i = rep_remove_A keep rs rt ph items i).
+Proof.
+  intros rs rt ph items i x a xa b Ei Ea Exa Eb Hi Hax Hblank. split; [|split].
+  - unfold rep_remove_A. rewrite Ei, Ea, Eb, Exa. unfold rep_remove_from. rewrite Hblank.
+    rewrite (proj2 (Nat.ltb_lt _ _) Hi), (proj2 (Nat.ltb_lt _ _) Hax). cbn [andb]. unfold cut.
+    rewrite (firstn_slice rt a xa) by lia. rewrite <- app_assoc. reflexivity.
+  - unfold rep_remove_A. rewrite Ei, Ea, Eb, Exa. unfold rep_remove_from. rewrite andb_false_r. reflexivity.
+  - intros Hne keep. destruct i as [|j]; [contradiction|]. reflexivity.
+Qed.
